@@ -289,6 +289,8 @@ class Splitter:
                 self._implicit_comment_start = None
 
                 start_line = self._current_line
+                # Index after the block, where a subsequent implicit comment may start
+                next_block_start = None
                 try:
                     # Start new block parsing
                     if m_val.startswith("@comment"):
@@ -317,6 +319,9 @@ class Splitter:
                             error=e,
                         )
                     )
+                    # Whatever follows the raw of the failed block (including an unexpected mark
+                    #   which lead to the abortion) belongs to the next block or implicit comment.
+                    next_block_start = e.end_index
 
                 except ParserStateException as e:
                     # This is a bug in the parser, not in the bibtex. We should not continue.
@@ -333,7 +338,9 @@ class Splitter:
                     )
                     raise e
 
-                self._reset_block_status(current_char_index=self._current_char_index + 1)
+                if next_block_start is None:
+                    next_block_start = self._current_char_index + 1
+                self._reset_block_status(current_char_index=next_block_start)
             else:
                 # Part of implicit comment
                 continue
